@@ -18,7 +18,7 @@ KIND = {0: "BASIC", 1: "DATA", 2: "MODULE", 3: "TEXT"}
 
 
 def gen_cases(rng, tier):
-    n = scale(tier, 60, 1500)
+    n = scale(tier, 60, 450)
     cases = [{"spec": gen_third_party(rng), "verbose": rng.random() < 0.5} for _ in range(n)]
     for is_fd in (True, False):
         full = {"name": "FULL", "ext": "DAT", "kind": 1, "flag": 0, "content": {"rand": 21, "len": 320280}}
